@@ -117,6 +117,10 @@ def generate(tier, rng):
             for start in gen.tree_labels(t):
                 for _ in range(2 if tier == "quick" else 5):
                     yield mk(rng, t, start)
+    for sh in gen.big_shapes(rng, tier, 450):
+        t = gen.labelled(sh, rng, True)
+        dl = gen.deep_labels(t)
+        yield mk(rng, t, rng.choice([t[0], t[0], dl[len(dl) // 3]]))
     for _ in range(150 if tier == "quick" else 2500):
         t = gen.labelled(gen.random_shape(rng, rng.randrange(4, 13 if tier == "quick" else 31)), rng, True)
         yield mk(rng, t, rng.choice(gen.tree_labels(t)))
